@@ -15,6 +15,7 @@ CFG = {
     "rule": "W cases: write old env, write new env into the same layer dir (with unrelated extra files), snapshot, read back, probe apply() "
             "for 5 scopes x 2 starting envs. exhaustive: every single entry over 5 scopes x 5 behaviours x 3 names, on an empty and on a "
             "fully populated old env (thorough: + all pairs on one name over scope^2 x behaviour^2); sampled: 5 000 / 100 000 (old,new) pairs "
+            "+ correlated pairs (new = old minus a scope / entries / changed values) + every way of dropping scopes from a fully populated env; 7 probe scopes incl. process types named build/launch; "
             "with names incl. dots, leading dot, trailing dot, '..', space, non-UTF-8. R cases: 2 000 / 30 000 spec-shaped env directories "
             "with arbitrary file names (known/unknown/empty/non-UTF-8 extensions, leading dots, nested dots). "
             "non-trivial = W with non-empty old and new env, or R with at least one directory; distinct = distinct input line",
